@@ -2,7 +2,7 @@
 
 E4 (vmc/hashctl.py): for every script the hash values of the library's model objects are enumerated - all |N|!
 assignments for scripts with <= 6 hash-relevant names, every ordered pair (thorough: triple) of names at the front of
-the order beyond that - and the full public observation must be the same under all of them. In addition: all 24
+the order beyond that (corpus statements with more than 24 names: every single name at the front) - and the full public observation must be the same under all of them. In addition: all 24
 orders of {source_tables, get_column_lineage, to_cytoscape, str} with every accessor called twice on one runner (for
 scripts that raise: every call must raise what a fresh runner raises); every ordered pair / triple of the flag variants
 of get_column_lineage and the column-level export on one runner against a fresh runner per variant;
@@ -190,6 +190,8 @@ def _eval(task):
     hashctl.install()
     try:
         names = hashctl.discover(lambda: obs_of(item))
+        if item[0].startswith("corpus:") and len(names) > 24:
+            front = 1  # long corpus statements: every name once at the front of the order
         outcomes = {}
         n = 0
         first_by_outcome = {}
